@@ -94,9 +94,9 @@ Example lz_roundtrip_any_index_nonvacuous :
   (refp ex_st = ex_ref ++ repeat pad_byte (N.to_nat (key_len ex_st)) /\ ref_len ex_st = lenN ex_ref /\
    1 <= key_len ex_st /\ key_len ex_st + 3 = mml ex_st /\ (ht ex_st = [] \/ ht_mask ex_st < lenN (ht ex_st)) /\
    refp_len ex_st = lenN (refp ex_st)) /\
-  lz_encode (fun _ => 7) ex_st ex_tgt = Ok [30;49;4;68;95;65;66;67;68;52;44;49;48;46;80;65;66;67;68;68] /\
-  lz_decode ex_st [30;49;4;68;95;65;66;67;68;52;44;49;48;46;80;65;66;67;68;68] = Ok ex_tgt.
-Proof. vm_compute. repeat split; try reflexivity. right. reflexivity. Qed.
+  lz_encode (fun _ => 7) ex_st ex_tgt = Ok [30;49;4;68;95;45;50;44;49;52;46;80;65;66;67;68;68] /\
+  lz_decode ex_st [30;49;4;68;95;45;50;44;49;52;46;80;65;66;67;68;68] = Ok ex_tgt.
+Proof. vm_compute. repeat split; try reflexivity; try discriminate; try (right; reflexivity). Qed.
 Example lz_small_mml_nonvacuous : encode 3 ex_ref ex_tgt = Panic.
 Proof. vm_compute. reflexivity. Qed.
 Example sym_ok_includes : forallb sym_okb [0;1;2;3;4;5;6;7;8;9;10;11;12;13;14;15;30] = true /\ sym_okb 31 = false.
